@@ -92,6 +92,11 @@ def gen_star_case(r, maxops, maxfan=6):
             ops.append(("pullcheck", None if r.random() < 0.5 else G.rand_q(r), rand_ot(r)))
         else:
             ops.append(("end",))
+    if len(ops) >= 2 and r.random() < 0.3:
+        # the network grows: one or two arcs are connected after the node has been used (Arc.__init__ registers an arc
+        # with both ends at any time)
+        for _ in range(r.choice([1, 1, 2])):
+            ops.insert(r.randint(1, len(ops) - 1), (r.choice(["addout", "addin"]), arcs(1)[0]))
     return {"kind": "star", "cls": "Node", "adds": adds, "nons": nons, "outs": outs, "ins": ins, "ops": ops}
 
 
@@ -111,6 +116,17 @@ class StarRun:
             arc = arcs.Arc(name=f"ai{i}", in_port=nb, out_port=self.hub, capacity=Ex(a["cap"]), preference=Ex(a["pref"]))
             self.ins.append((arc, nb))
         self.msgs = 0
+
+    def add(self, out, a):
+        from wsimod.arcs import arcs
+        lst = self.outs if out else self.ins
+        i = len(lst)
+        nb = TYPES[a["ty"]](f"{'o' if out else 'i'}{i}", self.part, a["nb"], tagged=a.get("tagged", False))
+        if out:
+            arc = arcs.Arc(name=f"ao{i}", in_port=self.hub, out_port=nb, capacity=Ex(a["cap"]), preference=Ex(a["pref"]))
+        else:
+            arc = arcs.Arc(name=f"ai{i}", in_port=nb, out_port=self.hub, capacity=Ex(a["cap"]), preference=Ex(a["pref"]))
+        lst.append((arc, nb))
 
     def ot(self, ot):
         if ot is None:
@@ -133,6 +149,9 @@ class StarRun:
                 r = self.hub.push_check_basic(None if op[1] is None else {"volume": Ex(op[1])}, of_type=self.ot(op[2]))
             elif k == "pullcheck":
                 r = self.hub.pull_check_basic(None if op[1] is None else {"volume": Ex(op[1])}, of_type=self.ot(op[2]))
+            elif k in ("addout", "addin"):
+                self.add(k == "addout", op[1])
+                r = None
             else:
                 for arc, nb in self.outs + self.ins:
                     arc.end_timestep()
@@ -159,7 +178,7 @@ def run_star_impl(c):
             return out + [-999]
         if op[0] in ("push", "pull"):
             out += R.part.ev(r) + [1 if msg else 0]
-        elif op[0] != "end":
+        elif op[0] not in ("end", "addout", "addin"):
             out += R.part.ev(r)
         out += R.enc()
     return out
@@ -182,13 +201,13 @@ def lit_ot(ot):
 
 
 def star_expr(c):
+    def one(a, push):
+        nb = K.lit_nb(a["nb"])
+        s = f"({IDLE}, {nb})" if push else f"({nb}, {IDLE})"
+        return f"mkSA _ (a_init {C.qlit(a['cap'])}) {C.qlit(a['pref'])} {s} {a['ty']}%nat"
+
     def st(arcs, push):
-        items = []
-        for a in arcs:
-            nb = K.lit_nb(a["nb"])
-            s = f"({IDLE}, {nb})" if push else f"({nb}, {IDLE})"
-            items.append(f"mkSA _ (a_init {C.qlit(a['cap'])}) {C.qlit(a['pref'])} {s} {a['ty']}%nat")
-        return "[" + "; ".join(items) + "]"
+        return "[" + "; ".join(one(a, push) for a in arcs) + "]"
     ops = []
     for op in c["ops"]:
         k = op[0]
@@ -200,6 +219,8 @@ def star_expr(c):
             ops.append(f"SPushCheck {K.lit_opt_q(op[1])} {lit_ot(op[2])}")
         elif k == "pullcheck":
             ops.append(f"SPullCheck {K.lit_opt_q(op[1])} {lit_ot(op[2])}")
+        elif k in ("addout", "addin"):
+            ops.append(f"{'SAddOut' if k == 'addout' else 'SAddIn'} ({one(op[1], k == 'addout')})")
         else:
             ops.append("SEnd")
     from wsimod.core import constants
@@ -236,10 +257,16 @@ def monitor_c18(rep, n, maxops=8, pid="C18"):
             C.arm(30)
             R = StarRun(c)
             part = R.part
+            louts, lins = list(c["outs"]), list(c["ins"])
             for i, op in enumerate(c["ops"]):
                 k = op[0]
+                if k in ("addout", "addin"):
+                    R.do(op)
+                    (louts if k == "addout" else lins).append(op[1])
+                    stats["arcs_added_later"] = stats.get("arcs_added_later", 0) + 1
+                    continue
                 arcs = R.outs if k in ("push", "pushcheck") else R.ins
-                sel = [j for j, a in enumerate(c["outs"] if arcs is R.outs else c["ins"])
+                sel = [j for j, a in enumerate(louts if arcs is R.outs else lins)
                        if op[0] != "end" and (op[2] is None or a["ty"] in ot_list(op[2]))]
                 before = [(_cv(part, a.vqip_in), frac(a.flow_in), nb.fk.enc()) for a, nb in arcs]
                 checks = None
